@@ -33,7 +33,10 @@ CONSTANTS
   Engine = "{engine}"
   GuardVals = {gvals}
   WithCan = {withcan}
+  PropSet = {propset}
+  MaxStates = {maxstates}
 VIEW View
+CONSTRAINT Bound
 ACTION_CONSTRAINT Emit
 CHECK_DEADLOCK FALSE
 """
@@ -88,12 +91,20 @@ class Edge:
         self.dirty = bool(obj.get("dirty", False))
 
 
+ALL_PROPS = ("C01", "C02", "C03", "C10", "C11")
+
+
+def _set(xs) -> str:
+    return "{" + ", ".join(f'"{x}"' for x in xs) + "}"
+
+
 def model_check(built: List[Built], workdir: str, *, engine="sync", gvals=("T", "F"), with_can=False,
-                workers=4, timeout=1800, coverage=False) -> Tuple[tla.TLCResult, List[Edge]]:
+                workers=4, timeout=1800, coverage=False, props=ALL_PROPS, max_states=10 ** 8) -> Tuple[tla.TLCResult, List[Edge]]:
     os.makedirs(workdir, exist_ok=True)
     tla.write_batch(os.path.join(workdir, "Batch.tla"), [b.defn for b in built])
     cfg = MC_CFG.format(engine=engine, gvals="{" + ", ".join(f'"{g}"' for g in gvals) + "}",
-                        withcan="TRUE" if with_can else "FALSE")
+                        withcan="TRUE" if with_can else "FALSE", propset=_set(props),
+                        maxstates=max_states)
     edges: List[Edge] = []
     res = tla.run_tlc("MCCore", cfg, workdir, workers=workers, timeout=timeout, coverage=coverage,
                       json_sink=lambda o: edges.append(Edge(o)))
@@ -101,13 +112,15 @@ def model_check(built: List[Built], workdir: str, *, engine="sync", gvals=("T", 
 
 
 TRACE_CFG = """SPECIFICATION Spec
+CONSTANTS
+  PropSet = {propset}
 ACTION_CONSTRAINT Emit
 CHECK_DEADLOCK FALSE
 """
 
 
 def validate_traces(built: List[Built], traces: List[dict], workdir: str, *, workers=4, timeout=1800,
-                    module="TraceCore") -> Tuple[tla.TLCResult, List[dict]]:
+                    module="TraceCore", props=ALL_PROPS) -> Tuple[tla.TLCResult, List[dict]]:
     """Code -> spec. traces: [{mi, eng, tag, steps:[{pre, step, post, out}]}]; returns verdict lines."""
     os.makedirs(workdir, exist_ok=True)
     tla.write_batch(os.path.join(workdir, "Batch.tla"), [b.defn for b in built])
@@ -115,7 +128,7 @@ def validate_traces(built: List[Built], traces: List[dict], workdir: str, *, wor
         for t in traces:
             f.write(json.dumps(t) + "\n")
     verdicts: List[dict] = []
-    res = tla.run_tlc(module, TRACE_CFG, workdir, workers=workers, timeout=timeout,
+    res = tla.run_tlc(module, TRACE_CFG.format(propset=_set(props)), workdir, workers=workers, timeout=timeout,
                       json_sink=lambda o: verdicts.append(o))
     for v in verdicts:
         v["prop"] = {k: sorted(x or []) for k, x in (v.get("prop") or {}).items()}
